@@ -27,7 +27,7 @@ D1S = [
     '% head\n@string{d1s = "v"}',
     "@book{d1b, a = {x}}\n@comment{d1 {c}}",
     '@misc{d1c, n = d1s2 # "q"}\nfree text\n@comment{cc}\n@string{d1s2 = {w}}',
-    "@b{d1e, z = {1}}\n@a{d1d, x = 1, x = 2, y = 3}",  # ends in an entry that repeats a field key
+    "@b{d1e, z = {1}}\n@a{d1d, x%s = 1, x%s = 2, y = 3}",  # ends in an entry that repeats a field key (one holding a %-format)
 ]
 D2S = [
     '@article{d2a, title = "T {"} x", pages = {1--2},}\n',
@@ -38,6 +38,8 @@ D2S = [
     "@misc{d2f}\n@a{d2g, f = {1}}",
     # entry types beyond plain letters (digits, underscore, non-ASCII letters: everything \\w matches)
     "@inproceedings2{d2h, f = {1}}\n@tech_report{d2i}\n@art\xedculo_9{d2j, g = {2},}",
+    # an entry without a type, then one with a %-key that repeats a field
+    "@{d2p, y = 7}\n@a{d2q%d, 100% = {7}, 100% = {8}}\n@{d2r}",  # (no bare 1: the middle may define a string of that name)
     # blanks / a tab between the type and the brace
     "@misc {d2m, f = {1}}\n@book\t{d2n}\n@String  {d2u = {w}}",
     # blocks that are not first on their line, after blocks of other kinds
@@ -135,8 +137,12 @@ def check_triple(i, x, j, acc, case=None):
     interesting = False
     for route in ROUTES:
         acc.trace()
-        a_full, _ = alone(d1, route)
-        _, b_sig = alone(d2, route)
+        try:
+            a_full, _ = alone(d1, route)
+            _, b_sig = alone(d2, route)
+        except Exception as e:
+            acc.exception(e, case, "parse of a well-formed part on its own", size=len(x))
+            continue
         try:
             # history: the malformed text on its own first (it ends at EOF in whatever scanner state it reaches);
             # nothing of that call may survive into the next one
